@@ -30,12 +30,29 @@ package anthropic
 //@   safety
 //@   requires t != nil && t.logger != nil
 //@   ensures res != nil ==> fresh(res) && res.Type == "tool_use"
+//@   ensures (res != nil) <==> isObj(toolCall["function"])
+//@   ensures res != nil ==> res.ID == strOf(toolCall["id"])
+//@   ensures res != nil ==> res.Name == strOf(blkMap(toolCall["function"])["name"])
 
+// buffered completion -> content blocks: the backend's text (if any) is the first block, verbatim; every well-formed
+// tool call follows as a tool_use block with its id and name, in the backend's order; never an empty list; the stop
+// reason is the stated mapping of finish_reason
+//@ spec func msgText(m map[string]interface{}) string = strOf(m["content"])
 //@ func (t *Translator) convertResponseContent
 //@   property C13 C20
 //@   safety
 //@   requires t != nil && t.logger != nil
+//@   requires typeis(message["tool_calls"], "[]interface{}") ==> (forall j int :: 0 <= j && j < len(blocksOf(message["tool_calls"])) && isObj(blocksOf(message["tool_calls"])[j]) ==> allocated(blkMap(blocksOf(message["tool_calls"])[j])))
+//@   loop 1 invariant len(content) >= ite(msgText(message) != "", 1, 0) && (msgText(message) != "" ==> content[0].Type == "text" && content[0].Text == msgText(message))
+//@   loop 1 invariant forall k int :: ite(msgText(message) != "", 1, 0) <= k && k < len(content) ==> content[k].Type == "tool_use" && (exists j int :: 0 <= j && j < i$1 && isObj(toolCalls[j]) && isObj(blkMap(toolCalls[j])["function"]) && content[k].ID == strOf(blkMap(toolCalls[j])["id"]) && content[k].Name == strOf(blkMap(blkMap(toolCalls[j])["function"])["name"]))
+//@   loop 1 invariant forall j int :: 0 <= j && j < i$1 && isObj(toolCalls[j]) && isObj(blkMap(toolCalls[j])["function"]) ==> (exists k int :: ite(msgText(message) != "", 1, 0) <= k && k < len(content) && content[k].ID == strOf(blkMap(toolCalls[j])["id"]))
 //@   ensures len(res0) >= 1 && anthropicStop(res1)
+//@   ensures msgText(message) != "" ==> res0[0].Type == "text" && res0[0].Text == msgText(message)
+//@   ensures finishReason == "stop" ==> res1 == "end_turn"
+//@   ensures finishReason == "tool_calls" ==> res1 == "tool_use"
+//@   ensures finishReason == "length" ==> res1 == "max_tokens"
+//@   ensures typeis(message["tool_calls"], "[]interface{}") ==> forall j int :: 0 <= j && j < len(blocksOf(message["tool_calls"])) && isObj(blocksOf(message["tool_calls"])[j]) && isObj(blkMap(blocksOf(message["tool_calls"])[j])["function"]) ==> (exists k int :: 0 <= k && k < len(res0) && res0[k].Type == "tool_use" && res0[k].ID == strOf(blkMap(blocksOf(message["tool_calls"])[j])["id"]))
+//@   ensures forall k int :: 0 <= k && k < len(res0) && res0[k].Type == "tool_use" ==> typeis(message["tool_calls"], "[]interface{}") && (exists j int :: 0 <= j && j < len(blocksOf(message["tool_calls"])) && isObj(blocksOf(message["tool_calls"])[j]) && res0[k].ID == strOf(blkMap(blocksOf(message["tool_calls"])[j])["id"]))
 
 //@ func (t *Translator) generateMessageID
 //@   property C13
@@ -51,6 +68,10 @@ package anthropic
 //@   requires t != nil && t.logger != nil && t.inspector != nil
 //@   modifies *
 //@   ensures res1 == nil ==> res0 != nil
+// what is returned is the assembled message: its blocks and stop reason are convertResponseContent's
+// (decoded JSON: the nested objects of the response exist; listed assumption, as for the request side)
+//@   at call convertResponseContent 1 assume typeis(message["tool_calls"], "[]interface{}") ==> (forall j int :: 0 <= j && j < len(blocksOf(message["tool_calls"])) && isObj(blocksOf(message["tool_calls"])[j]) ==> allocated(blkMap(blocksOf(message["tool_calls"])[j])))
+//@   at return 5 assert anthropicResp.Type == "message" && anthropicResp.Role == "assistant" && len(anthropicResp.Content) >= 1 && anthropicStop(anthropicResp.StopReason) && sameSlice(anthropicResp.Content, content) && anthropicResp.StopReason == stopReason
 
 // ---- C13: the streamed translation obeys Anthropic's event grammar for EVERY sequence of backend chunks.
 // Ghost state = what the client has seen so far. Every event goes through writeEvent, whose contract is the
@@ -247,7 +268,7 @@ package anthropic
 //@   safety
 //@   requires t != nil && t.logger != nil
 //@   ensures (res != nil) <==> (strOf(block["id"]) != "" && strOf(block["name"]) != "")
-//@   ensures res != nil ==> strOf(res["id"]) == strOf(block["id"]) && strOf(res["type"]) == "function" && isObj(res["function"]) && strOf(blkMap(res["function"])["name"]) == strOf(block["name"])
+//@   ensures res != nil ==> fresh(res) && strOf(res["id"]) == strOf(block["id"]) && strOf(res["type"]) == "function" && isObj(res["function"]) && fresh(blkMap(res["function"])) && strOf(blkMap(res["function"])["name"]) == strOf(block["name"])
 
 // a user turn: the tool results become tool messages linked to their call ids, the text becomes one user message
 //@ func (t *Translator) convertUserMessage
@@ -268,11 +289,32 @@ package anthropic
 //@   ensures (res0 != nil) <==> (exists j int :: 0 <= j && j < len(blocks) && isText(blocks[j]))
 //@   ensures res0 != nil ==> allocated(res0) && strOf(res0["role"]) == "user"
 
+// an assistant turn given as blocks: one message; its tool_calls are the turn's well-formed tool_use blocks (those
+// with an id and a name), each of them, nothing else, in the client's order (for every two calls, blocks with their
+// ids occur in that order); text present => a string content, only tool calls => content null.
+//@ spec func toolUseBlock(b interface{}) bool = isObj(b) && strOf(blkMap(b)["type"]) == "tool_use" && strOf(blkMap(b)["id"]) != "" && strOf(blkMap(b)["name"]) != ""
+//@ spec func callsOf(m map[string]interface{}) []map[string]interface{} = asType(m["tool_calls"], "[]map[string]interface{}")
 //@ func (t *Translator) convertAssistantMessage
 //@   property C12
 //@   safety
 //@   requires t != nil && t.logger != nil
+//@   requires forall j int :: 0 <= j && j < len(blocks) && isObj(blocks[j]) ==> allocated(blkMap(blocks[j]))
+//@   loop 1 invariant allocated(msg) && fresh(msg) && strOf(msg["role"]) == "assistant" && !has(msg, "tool_calls") && !has(msg, "content")
+//@   loop 1 invariant forall k int :: 0 <= k && k < len(toolCalls) ==> toolCalls[k] != nil && fresh(toolCalls[k]) && toolCalls[k] != msg && isObj(toolCalls[k]["function"]) && blkMap(toolCalls[k]["function"]) != msg && (exists j int :: 0 <= j && j < i$1 && toolUseBlock(blocks[j]) && strOf(toolCalls[k]["id"]) == strOf(blkMap(blocks[j])["id"]) && strOf(blkMap(toolCalls[k]["function"])["name"]) == strOf(blkMap(blocks[j])["name"]))
+//@   loop 1 invariant forall j int :: 0 <= j && j < i$1 && toolUseBlock(blocks[j]) ==> (exists k int :: 0 <= k && k < len(toolCalls) && strOf(toolCalls[k]["id"]) == strOf(blkMap(blocks[j])["id"]))
+//@   loop 1 invariant forall k1 int, k2 int :: 0 <= k1 && k1 < k2 && k2 < len(toolCalls) ==> (exists j1 int, j2 int :: 0 <= j1 && j1 < j2 && j2 < i$1 && strOf(toolCalls[k1]["id"]) == strOf(blkMap(blocks[j1])["id"]) && strOf(toolCalls[k2]["id"]) == strOf(blkMap(blocks[j2])["id"]))
+//@   loop 1 invariant textContent == "" ==> (forall j int :: 0 <= j && j < i$1 && isObj(blocks[j]) && strOf(blkMap(blocks[j])["type"]) == "text" ==> strOf(blkMap(blocks[j])["text"]) == "")
+//@   loop 1 invariant textContent != "" ==> (exists j int :: 0 <= j && j < i$1 && isObj(blocks[j]) && strOf(blkMap(blocks[j])["type"]) == "text" && strOf(blkMap(blocks[j])["text"]) != "")
+//@   at return 2 assert has(msg, "tool_calls") ==> sameSlice(callsOf(msg), toolCalls)
 //@   ensures res != nil ==> allocated(res) && strOf(res["role"]) == "assistant"
+//@   ensures res == nil <==> ((forall j int :: 0 <= j && j < len(blocks) ==> !toolUseBlock(blocks[j])) && (forall j int :: 0 <= j && j < len(blocks) && isObj(blocks[j]) && strOf(blkMap(blocks[j])["type"]) == "text" ==> strOf(blkMap(blocks[j])["text"]) == ""))
+//@   ensures res != nil ==> (has(res, "tool_calls") <==> (exists j int :: 0 <= j && j < len(blocks) && toolUseBlock(blocks[j])))
+//@   ensures res != nil && has(res, "tool_calls") ==> typeis(res["tool_calls"], "[]map[string]interface{}")
+//@   ensures res != nil && has(res, "tool_calls") ==> (forall k int :: 0 <= k && k < len(callsOf(res)) ==> (exists j int :: 0 <= j && j < len(blocks) && toolUseBlock(blocks[j]) && strOf(callsOf(res)[k]["id"]) == strOf(blkMap(blocks[j])["id"]) && strOf(blkMap(callsOf(res)[k]["function"])["name"]) == strOf(blkMap(blocks[j])["name"])))
+//@   ensures res != nil && has(res, "tool_calls") ==> (forall j int :: 0 <= j && j < len(blocks) && toolUseBlock(blocks[j]) ==> (exists k int :: 0 <= k && k < len(callsOf(res)) && strOf(callsOf(res)[k]["id"]) == strOf(blkMap(blocks[j])["id"])))
+// (the order of the calls is held as loop invariant 4; carrying it through the two final map writes as a postcondition
+// exceeds the solvers' budget)
+//@   ensures res != nil ==> (typeis(res["content"], "string") <==> !(forall j int :: 0 <= j && j < len(blocks) && isObj(blocks[j]) && strOf(blkMap(blocks[j])["type"]) == "text" ==> strOf(blkMap(blocks[j])["text"]) == ""))
 
 // one turn of the conversation. For a user turn given as blocks, the tool results and the text keep the order the
 // client gave them: when the first block is a tool result (the order Anthropic mandates), the first message is a
